@@ -52,7 +52,7 @@ Nones(n) == [q \in 1..n |-> NoneV]
 
 \* ---- minimal match length (prunes the search so that recursion happens on strictly smaller spans, or on the
 \*      same span only through nullable siblings - which is a derivation cycle and excluded) ----------------------
-Big == 99
+Big == 1000000
 RECURSIVE MinLenE(_, _)
 MinLenE(ML, e) ==
   CASE e.k = "tok"   -> 1
@@ -62,6 +62,18 @@ MinLenE(ML, e) ==
     [] e.k = "opt"   -> 0
     [] e.k = "maybe" -> 0
     [] e.k = "rep"   -> LET t == e.n * MinLenE(ML, e.x) IN IF t > Big THEN Big ELSE t
+\* an upper bound of the match length (Big = unknown/unbounded); only used to prune
+RECURSIVE MaxLenE(_)
+MaxLenE(e) ==
+  CASE e.k = "tok"   -> 1
+    [] e.k = "rule"  -> Big
+    [] e.k = "seq"   -> LET t == SumSeq([q \in DOMAIN e.items |-> MaxLenE(e.items[q])]) IN IF t > Big THEN Big ELSE t
+    [] e.k = "alt"   -> MaxOf({MaxLenE(e.alts[q]) : q \in DOMAIN e.alts})
+    [] e.k = "opt"   -> MaxLenE(e.x)
+    [] e.k = "maybe" -> MaxLenE(e.x)
+    [] e.k = "rep"   -> IF e.m < 0 \/ MaxLenE(e.x) >= Big THEN Big ELSE e.m * MaxLenE(e.x)
+Within(len, e) == MaxLenE(e) >= Big \/ len <= MaxLenE(e)
+
 RECURSIVE MinLenLfp(_, _)
 MinLenLfp(G, ML) ==
   LET ML2 == [nm \in DOMAIN ML |->
@@ -76,7 +88,7 @@ RECURSIVE Match(_, _, _, _, _), MatchSeq(_, _, _, _, _, _), MatchRep(_, _, _, _,
           MinRest(_, _, _)
 
 Match(cx, ka, e, i, j) ==
-  IF j - i < MinLenE(cx.ML, e) THEN {} ELSE
+  IF j - i < MinLenE(cx.ML, e) \/ ~Within(j - i, e) THEN {} ELSE
   CASE e.k = "tok" ->
          IF j = i + 1 /\ i < Len(cx.w) /\ cx.w[i + 1] = e.name
          THEN {IF e.keep \/ ka THEN << <<"T", e.name, i, <<>>>> >> ELSE <<>>}
@@ -103,7 +115,8 @@ MatchSeq(cx, ka, items, k, i, j) ==
   ELSE UNION { LET rest == MatchSeq(cx, ka, items, k + 1, m, j) IN
                IF rest = {} THEN {}
                ELSE {a \o b : a \in Match(cx, ka, items[k], i, m), b \in rest}
-               : m \in {q \in i..j : q - i >= MinLenE(cx.ML, items[k]) /\ j - q >= MinRest(cx.ML, items, k + 1)} }
+               : m \in {q \in i..j : /\ q - i >= MinLenE(cx.ML, items[k]) /\ Within(q - i, items[k])
+                                      /\ j - q >= MinRest(cx.ML, items, k + 1)} }
 
 \* exactly c consecutive occurrences of x over (i,j), each at least `lo` tokens long
 MatchRep(cx, ka, x, c, i, j, lo) ==
@@ -112,7 +125,9 @@ MatchRep(cx, ka, x, c, i, j, lo) ==
   ELSE UNION { LET rest == MatchRep(cx, ka, x, c - 1, m, j, lo) IN
                IF rest = {} THEN {}
                ELSE {a \o b : a \in Match(cx, ka, x, i, m), b \in rest}
-               : m \in (i + lo)..j }
+               : m \in {q \in (i + lo)..j : /\ Within(q - i, x) /\ q - i >= MinLenE(cx.ML, x)
+                                             /\ j - q >= (c - 1) * MinLenE(cx.ML, x)
+                                             /\ (MaxLenE(x) >= Big \/ j - q <= (c - 1) * MaxLenE(x))} }
 
 \* what a reference to rule `name` contributes: the node, or (inlined / ?-collapsed) its children
 RuleResults(cx, name, i, j) ==
